@@ -207,3 +207,119 @@ func abstract(x any, depth int) Val {
 	}
 	return Val{K: Opaque, S: fmt.Sprintf("%T", x)}
 }
+
+// BuildVia builds an acyclic abstract value like Build, but every collection node goes through another
+// constructor: way 1 = MakeFromArray (MakeFromMap for the associative kinds when the keys allow it),
+// way 2 = MakeFromSequence from a list or an array holding the items, way 3 = MakeFromSequence from a
+// collection of the same kind (a copy).  Way 0 is Build's own way (Make and one insertion per item).
+// Two values built from equal parts are the same value whichever constructors produced them.
+func BuildVia(v Val, way int) any {
+	if way%4 == 0 {
+		return build(v, nil)
+	}
+	switch v.K {
+	case GoSlice:
+		s := make([]any, 0, len(v.Items)) // a slice with spare capacity instead of an exact one
+		for _, x := range v.Items {
+			s = append(s, BuildVia(x, way+1))
+		}
+		return s
+	case GoMap:
+		m := make(map[any]any, 2*len(v.Pairs)+1)
+		for i := len(v.Pairs) - 1; i >= 0; i-- {
+			m[BuildVia(v.Pairs[i].Key, way+1)] = BuildVia(v.Pairs[i].Value, way+1)
+		}
+		return m
+	case Coll:
+	default:
+		return build(v, nil)
+	}
+	items := make([]any, len(v.Items))
+	for i, x := range v.Items {
+		items[i] = BuildVia(x, way+1)
+	}
+	A := col.Association[any, any](notation)
+	assocs := make([]col.AssociationLike[any, any], len(v.Pairs))
+	for i, p := range v.Pairs {
+		assocs[i] = A.Make(BuildVia(p.Key, way+1), BuildVia(p.Value, way+1))
+	}
+	n := len(items)
+	asSequence := func() col.Sequential[any] {
+		if way%2 == 0 {
+			return col.Array[any](notation).MakeFromArray(items)
+		}
+		return col.List[any](notation).MakeFromArray(items)
+	}
+	switch v.CK {
+	case "Array":
+		C := col.Array[any](notation)
+		switch way % 4 {
+		case 1:
+			return C.MakeFromArray(items)
+		case 2:
+			return C.MakeFromSequence(col.List[any](notation).MakeFromArray(items))
+		}
+		return C.MakeFromSequence(C.MakeFromArray(items))
+	case "List":
+		C := col.List[any](notation)
+		switch way % 4 {
+		case 1:
+			return C.MakeFromArray(items)
+		case 2:
+			return C.MakeFromSequence(col.Array[any](notation).MakeFromArray(items))
+		}
+		return C.MakeFromSequence(C.MakeFromArray(items))
+	case "Set":
+		C := col.Set[any](notation)
+		switch way % 4 {
+		case 1:
+			return C.MakeFromArray(items)
+		case 2:
+			return C.MakeFromSequence(asSequence())
+		}
+		return C.MakeFromSequence(C.MakeFromArray(items))
+	case "Stack":
+		C := col.Stack[any](notation)
+		if uint(n) > C.DefaultCapacity() {
+			return build(v, nil)
+		}
+		switch way % 4 {
+		case 1:
+			return C.MakeFromArray(items)
+		case 2:
+			return C.MakeFromSequence(asSequence())
+		}
+		return C.MakeFromSequence(C.MakeFromArray(items))
+	case "Queue":
+		C := col.Queue[any](notation)
+		if uint(n) > C.DefaultCapacity() {
+			return build(v, nil)
+		}
+		switch way % 4 {
+		case 1:
+			return C.MakeFromArray(items)
+		case 2:
+			return C.MakeFromSequence(asSequence())
+		}
+		return C.MakeFromSequence(C.MakeFromArray(items))
+	case "Catalog":
+		C := col.Catalog[any, any](notation)
+		switch way % 4 {
+		case 1:
+			return C.MakeFromArray(assocs)
+		case 2:
+			return C.MakeFromSequence(col.List[col.AssociationLike[any, any]](notation).MakeFromArray(assocs))
+		}
+		return C.MakeFromSequence(C.MakeFromArray(assocs))
+	case "Map":
+		C := col.Map[any, any](notation)
+		switch way % 4 {
+		case 1:
+			return C.MakeFromArray(assocs)
+		case 2:
+			return C.MakeFromSequence(col.List[col.AssociationLike[any, any]](notation).MakeFromArray(assocs))
+		}
+		return C.MakeFromSequence(col.Catalog[any, any](notation).MakeFromArray(assocs))
+	}
+	panic("model: unknown collection kind " + v.CK)
+}
